@@ -159,9 +159,24 @@ theorem model_shape_facts :
     Gen.C18.frameMinMaxAreCopies = true ∧ Gen.C18.arrayMinMaxAreCopies = true ∧
     Gen.C18.frameFirstDrawTest = "k == 0" ∧ Gen.C18.arrayFirstDrawTest = "k == 0" ∧ Gen.C18.minmaxReturnsMiniMaxi = true ∧
     Gen.C18.loops = ["k in range(0, draws)", "i in range(cor.shape[0])", "j in range(cor.shape[1])"] ∧
+    Gen.C18.cloneInLoop = ["j"] ∧
     Gen.C18.pipeline = [("df", "scale(df)"), ("fit", "mod.fit(xi_train, xj_train.ravel())"), ("mod", "clone(model)"),
       ("v", "mod.predict(xi_test)"), ("xi_test", "df_test[:, i:i + 1]"), ("xi_train", "df_train[:, i:i + 1]"),
       ("xj_test", "df_test[:, j:j + 1]"), ("xj_train", "df_train[:, j:j + 1]")] := by decide +kernel
+
+/-! ### the tie to the functions the model transcribes -/
+
+/-- the functions the hand-written model transcribes have, in the current source, the control skeleton (tests, loop
+headers, kinds of statements and the names they bind) they had when the model was written and validated: no branch,
+loop, early exit or rebinding has been added that the model does not describe -/
+theorem modelled_functions_have_the_transcribed_shape :
+    MlVerif.Gen.C18.shapeCorrelations =
+      "if(hasattr(df, 'iloc')){cor=;cor.iloc[]=;iloc=;if(minmax){mini=;maxi=}}else{cor=;cor[]=;iloc=;if(minmax){mini=;maxi=}};df=;for(k in range(0, draws)){(df_train,df_test)=;for(i in range(cor.shape[0])){xi_train=;xi_test=;for(j in range(cor.shape[1])){xj_train=;xj_test=;assert;mod=;try{call fit}except(Exception){raise};v=;c=;co=;if(iloc){cor.iloc[]Add=;if(minmax){if(k == 0){mini.iloc[]=;maxi.iloc[]=}else{mini.iloc[]=;maxi.iloc[]=}}}else{cor[]Add=;if(minmax){if(k == 0){mini[]=;maxi[]=}else{mini[]=;maxi[]=}}}}}};if(minmax){return};return" ∧
+    MlVerif.Gen.C18.shapeComparableMetric =
+      "tr=;inv_tr=;if(tr is not None and (not callable(tr))){raise};if(inv_tr is not None and (not callable(inv_tr))){raise};if(tr is None and inv_tr is None){raise};if(tr is None){return};if(inv_tr is None){return};return" ∧
+    MlVerif.Gen.C18.shapeR2Comparable =
+      "return" :=
+  ⟨rfl, rfl, rfl⟩
 
 /-! ### non-vacuity: concrete instances over `Rat` -/
 
